@@ -96,6 +96,9 @@ package bufcheck
 //@   property C06
 //@   modifies heap
 //@   reveal inSlice
+// the bookkeeping loop for deprecation warnings writes through aliased inner maps (outside the fragment);
+// it is abstracted by havoc of what it assigns: it feeds only the warning maps, not the rule selection
+//@   skip "for _, ids := range [][]string{"
 //@   loop 5 invariant resultRuleIDToRule != nil && (forall x string :: (x in resultRuleIDToRule) <==> (exists j int :: 0 <= j && j < $i && useRuleIDs[j] == x))
 //@   loop 6 invariant resultRuleIDToRule != nil && (forall x string :: (x in resultRuleIDToRule) <==> (inSlice(useRuleIDs, x) && !(exists j int :: 0 <= j && j < $i && exceptRuleIDs[j] == x)))
 //@   assert before "resultRules := slicesext.MapValuesToSlice(resultRuleIDToRule)" use-minus-except: forall x string :: (x in resultRuleIDToRule) <==> (inSlice(useRuleIDs, x) && !inSlice(exceptRuleIDs, x))
